@@ -3,7 +3,7 @@ namespace MayVerif.Park
 
 set_option maxHeartbeats 4000000 in
 theorem inv_stepT (s s' : St) (e : Env) (h : Inv s) (hs : stepT s e = some s') : Inv s' := by
-  have hp3 : s.tpc = .t1 → s.ppc = .u3wait := fun ht => h.u3 (Or.inr (Or.inr (Or.inr (Or.inr (Or.inl (h.heldT.mpr ht))))))
+  have hp3 : s.tpc = .t1 → s.ppc = .u3wait := fun ht => h.u3 (Or.inr (Or.inr (Or.inr (Or.inr (Or.inr (Or.inl (h.heldT.mpr ht)))))))
   destruct_inv
   unfold stepT at hs
   split at hs
